@@ -1,4 +1,5 @@
-HOOK_COMMITS = ["cbf034a", "79ed35c", "HEAD~0 (see git log --grep ^verif: in /repo)"]
+import subprocess as _sp
+HOOK_COMMITS = _sp.run("git -C /repo log --grep '^verif:' --format=%h --reverse", shell=True, capture_output=True, text=True).stdout.split()
 NOTES = ("Every check = Lean proofs (lake build + #print axioms audit) + correspondence run of the real code against the model. "
          "Properties not yet claimed are listed under not_applicable with reason 'not yet built' - that is a statement about this "
          "framework's progress, not about the technique.")
@@ -183,6 +184,22 @@ CLAIMED["C16"] = dict(
          "is calibrated per run, not fixed (code and METRICS.md disagree on it, see DESIGN.md). TCP idle expiry only with generous "
          "advances (C14 covers its timing). HTTP/3, SOCKS5, ICMP and the non-tunnel channels are not driven.",
 )
+CLAIMED["C17"] = dict(
+    text="Unbounded Lean theorems about the forwarded-response sink under the pipe's write / wait / write-again loop, with a client-side "
+         "sink that takes a scripted number of bytes per write: for EVERY segmentation of the origin's byte stream and EVERY acceptance "
+         "script (zeros included) the client observes exactly what the whole stream in one segment through an unthrottled sink gives "
+         "(interim responses, head, body bytes, where end of stream falls) - malformed streams included; that single run delivers, for "
+         "any chunk sizes / extensions, exactly the concatenated chunk payloads then end of stream (HTTP/2, HTTP/3), exactly the "
+         "Content-Length body ended when complete, a close-delimited body ended when the origin closes, nothing for HEAD / 204 / 304; a "
+         "1xx head in front changes nothing of what follows and is passed to HTTP/1.x clients only; hop-by-hop headers never reach the "
+         "client, every end-to-end header does, in order; the forwarded request keeps method, path, headers minus proxy-*, Host = URI "
+         "authority, and a Content-Length body is forwarded up to exactly that length. Tied to http_forwarded_stream.rs by ~2.5k (20k) "
+         "exchanges per run through the real into_forwarded source/sink under the real DuplexPipe, mutated streams for panics, and live "
+         "non-CONNECT requests through real HTTP/1.1 and HTTP/2 sessions to a loopback origin.",
+    note="Trusted: Lean kernel, harness/door, httparse as re-written for the generated grammar, http crate URI parsing, the real codecs "
+         "behind the responder only in the live runs, HTTP/3 not driven. One open known finding (HTTP/2-3 request body without "
+         "Content-Length is forwarded unframed), printed as KNOWN-FINDING on every run.",
+)
 CLAIMED["C19"] = dict(
     text="Unbounded Lean theorems about the shutdown model, for every operation history: a participant registered before a submission "
          "gets Ok from its next (or pending) wait whatever else is interleaved (repeated submits, other participants, completion polls); "
@@ -218,5 +235,4 @@ CLAIMED["C20"] = dict(
          "the leaks found (raw requests in six modules, credentials in TcpConnectionMeta and ConnectionMeta debug output) is in /repo.",
     technique="Lean 4 non-interference theorems for the scrubbers + kernel-decided generated log-site table + dynamic canary search",
 )
-NOT_CLAIMED = {p: "not yet built in this framework (planned, see DESIGN.md section 5)" for p in
-               ["C17"]}
+NOT_CLAIMED = {}
